@@ -269,9 +269,229 @@ def run(ctx):
     if n_sites < 3:
         ctx.anchor_missing(RULE, 'sites of the removal repair that paint the examined node\'s sibling red (one per tree copy)', PROPS, n_sites, 3)
     run_redred(ctx)
+    run_sentinel_colour(ctx)
+    run_spliced_colour(ctx)
 
 
 # ---- REDRED: the insert repair's recolouring pushes a red node up; the repair must follow it ---------------------------------------
+def run_sentinel_colour(ctx):
+    """The temporary sentinel stands for a removed BLACK leaf: the position it holds is one black short.  Its own colour field is
+    whatever the linking function wrote.  A repair that decides anything from the colour of its examined node therefore decides
+    from that field when the examined node is the sentinel: it must have been written Black (a red 'node' would be taken to absorb
+    the deficit, and the repair would end before it began)."""
+    prog = ctx.prog
+    for tree in sorted(prog.tree_adts):
+        fns = [f for f in prog.fns.values() if f.self_adt == tree and not f.is_closure and f.info.get('mir')]
+        colours = set()
+        for f in fns:
+            for st in f.body.stores:
+                acc = prog.accessor_call(strip(st.root))
+                if acc is not None and st.fields() == ('color',) and prog.is_nil_index(acc[2]) and f.name != 'new':
+                    colours.add(colour_name(prog, f, st.value))
+        # (function, parameter) pairs that may hold the sentinel
+        holders = set()
+        work = []
+        for f in fns:
+            for c in f.body.calls:
+                t = prog.resolve(c)
+                if t is None or t.self_adt != tree or t.path in prog.accessors or t.is_closure:
+                    continue
+                for i, a in enumerate(c.args):
+                    if prog.is_nil_index(a):
+                        work.append((t, i + 1))
+        while work:
+            t, k = work.pop()
+            if (t.path, k) in holders or not t.info.get('mir'):
+                continue
+            holders.add((t.path, k))
+            for c in t.body.calls:
+                t2 = prog.resolve(c)
+                if t2 is None or t2.self_adt != tree or t2.path in prog.accessors or t2.is_closure:
+                    continue
+                for i, a in enumerate(c.args):
+                    sa = strip(a)
+                    if sa is not None and sa.kind == 'param' and sa.args[0] == k:
+                        work.append((t2, i + 1))
+        reads = []
+        for (path, k) in sorted(holders):
+            f = prog.fns[path]
+            b = f.body
+            for v in b._vals:
+                if v.kind not in ('load', 'ref') or not v.point:
+                    continue
+                nf = prog.node_field(v)
+                if nf is None or nf[1] != ('color',):
+                    continue
+                if v.kind == 'ref' and v.extra.get('mut'):
+                    continue        # a place to write to, not a read
+                base = strip(nf[0])
+                if base is not None and base.kind == 'param' and base.args[0] == k:
+                    # a read under `n != NIL_INDEX` is a read of a real node
+                    guarded = False
+                    for sblk, d in b.switch_discr.items():
+                        sd = strip(d)
+                        if sd is not None and sd.kind == 'bin' and sd.args[0] in ('Eq', 'Ne'):
+                            xs = [strip(sd.args[1]), strip(sd.args[2])]
+                            if any(x is base for x in xs) and any(prog.is_nil_index(x) for x in xs):
+                                from rules.gate import edge_truth
+                                t_ = b.mir['blocks'][sblk]['term']
+                                for succ in set(b.cfg.succ[sblk]):
+                                    tr = edge_truth(t_, succ)
+                                    if tr is not None and (tr == (sd.args[0] == 'Ne')) and b.cfg.pred[succ] == [sblk] and b.cfg.dominates(succ, v.point[0]):
+                                        guarded = True
+                    if not guarded:
+                        reads.append((f, v))
+        anchor = [f for f in fns if any(p_ == f.path for p_, _ in holders)]
+        if not holders:
+            continue
+        f0 = reads[0][0] if reads else sorted(anchor, key=lambda f: f.path)[0]
+        if reads and colours != {'Black'}:
+            ctx.add('DEFICIT', f0, 'sentinel-colour', 'violation',
+                    '%s reads the colour of its examined node, which may be the sentinel standing for a removed black leaf; the sentinel is created %s: it is taken for a red node and the missing black is never repaired'
+                    % (f0.name, '/'.join(sorted(c or '?' for c in colours)) or 'with no colour'), ['C02'], span_line(reads[0][1], f0.line))
+        else:
+            ctx.add('DEFICIT', f0, 'sentinel-colour', 'ok', 'the colour of the examined node is never read where it may be the sentinel' if not reads else 'the sentinel is created Black', ['C02'], f0.line)
+
+
+def run_spliced_colour(ctx):
+    """The removal decides 'a black node went missing' from a colour.  It must be the colour of the node that is actually spliced out
+    of the tree (the one whose slot is released): when the entry to delete has two children that is its in-order neighbour, not the
+    entry's own node.  Checked where the released index is chosen: the colour tested is read from the released node - either after
+    the choice, or chosen side by side with it (the same merge, the same sides)."""
+    prog = ctx.prog
+    from rules.pool import pool_roles, tree_pool, calls_to
+    roles = pool_roles(prog)
+    for tree in sorted(prog.tree_adts):
+        pool, _ = tree_pool(prog, tree)
+        r = roles.get(pool)
+        if not r:
+            continue
+        fns = [f for f in prog.fns.values() if f.self_adt == tree and not f.is_closure and f.info.get('mir')]
+        for f in fns:
+            b = f.body
+            rel = calls_to(prog, f, r['release'])
+            # the removal proper: releases a slot and starts a repair with the sentinel
+            if not rel or not any(any(prog.is_nil_index(a) for a in c.args) for c in b.calls if prog.resolve(c) is not None and prog.resolve(c).self_adt == tree):
+                continue
+            R = strip(rel[0].args[-1])
+            problems = []
+            n_tests = 0
+            for sblk, d in b.switch_discr.items():
+                sd = strip(d)
+                if sd is None:
+                    continue
+                if sd.kind == 'bin' and sd.args[0] in ('Eq', 'Ne'):
+                    ops = [strip(sd.args[1]), strip(sd.args[2])]
+                elif sd.kind == 'call' and sd.callee_name() in ('eq', 'ne') and len(sd.args) == 2:
+                    ops = [strip(a) for a in sd.args]
+                    ops = [strip(o.args[0]) if o is not None and o.kind == 'ref' and not o.fields() and o.args else o for o in ops]
+                elif sd.kind == 'discr':
+                    ops = [strip(sd.args[0])]            # `match colour { Red => .., Black => .. }`
+                else:
+                    continue
+                def is_colour(o):
+                    return o is not None and (o.ty or '').split('<')[0].split('::')[-1] == 'Color'
+                if not any(is_colour(o) for o in ops):
+                    continue
+                cols = [o for o in ops if is_colour(o) and o.kind not in ('const', 'agg')]
+                for cval in cols:
+                    n_tests += 1
+                    why = colour_of_released(prog, f, cval, R)
+                    if why:
+                        problems.append(why)
+            if n_tests == 0:
+                continue
+            if problems:
+                ctx.add('DEFICIT', f, 'spliced-colour', 'violation', problems[0], ['C02'], f.line)
+            else:
+                ctx.add('DEFICIT', f, 'spliced-colour', 'ok', 'the colour that decides whether a black node went missing is the colour of the node spliced out (%d test(s))' % n_tests, ['C02'], f.line)
+
+
+def colour_of_released(prog, f, cval, R, depth=0):
+    """None if the colour value cval is the colour of node R; else a description"""
+    cval = strip(cval)
+    R = strip(R)
+    if cval is None or depth > 6:
+        return 'a colour of unknown origin decides the repair'
+    # both chosen together as components of one merged tuple: `let (delete_index, .., colour) = if two_children { .. } else { .. }`
+    cs, rs = sides(cval), sides(R)
+    if cs is not None and rs is not None and cs[0] == rs[0] and (cs[2] or rs[2]):
+        for ca, ra in zip(cs[1], rs[1]):
+            w = colour_of_released(prog, f, ca, ra, depth + 1)
+            if w:
+                return w
+        return None
+    # both handed in by the caller: decided at the call sites
+    if cval.kind == 'param' and R.kind == 'param':
+        callers = [(c, g) for c, g in prog.callers(f) if not g.is_closure and g.info.get('mir')]
+        if callers:
+            for c, g in callers:
+                if len(c.args) < max(cval.args[0], R.args[0]):
+                    return 'a colour of unknown origin decides the repair'
+                w = colour_of_released(prog, g, c.args[cval.args[0] - 1], c.args[R.args[0] - 1], depth + 1)
+                if w:
+                    return w
+            return None
+    if cval.kind in ('load', 'ref'):
+        nf = prog.node_field(cval)
+        if nf is not None and nf[1] == ('color',):
+            base = strip(nf[0])
+            if base is R:
+                return None
+            if R.kind == 'phi':
+                return 'the colour tested is that of node(%s) whichever node is spliced out (%s): when the entry has two children its in-order neighbour is removed in its place, and the neighbour\'s colour decides' % (show(base, 2), show(R, 2))
+            return None if same_index(prog, base, R) else 'the colour tested is that of node(%s), the node released is %s' % (show(base, 2), show(R, 2))
+        return 'a colour of unknown origin decides the repair'
+    if cval.kind == 'phi':
+        if R.kind == 'phi' and R.extra.get('block') == cval.extra.get('block') and list(R.extra.get('preds', [])) == list(cval.extra.get('preds', [])):
+            for ca, ra in zip(cval.args, R.args):
+                w = colour_of_released(prog, f, ca, ra, depth + 1)
+                if w:
+                    return w
+            return None
+        # a colour merged where the released index is not: every side must be the released node's
+        for ca in cval.args:
+            w = colour_of_released(prog, f, ca, R, depth + 1)
+            if w:
+                return w
+        return None
+    return 'a colour of unknown origin decides the repair'
+
+
+def sides(v):
+    """v as a choice made at a merge: ((block, preds), [value on every side], came-out-of-a-tuple) for a merge itself or for
+    field k of a merge of tuples; else None"""
+    v = strip(v)
+    if v is None:
+        return None
+    if v.kind == 'phi' and not v.extra.get('anyof'):
+        return (v.extra.get('block'), tuple(v.extra.get('preds', ()))), list(v.args), False
+    if v.kind in ('load', 'ref') and len(v.args[1]) == 1:
+        ph = strip(v.args[0])
+        k = v.args[1][0]
+        if ph is None or ph.kind != 'phi' or not (isinstance(k, str) and k.isdigit()):
+            return None
+        comps = []
+        for a in ph.args:
+            sa = strip(a)
+            if sa is None or sa.kind != 'agg' or int(k) >= len(sa.args):
+                return None
+            comps.append(sa.args[int(k)])
+        return (ph.extra.get('block'), tuple(ph.extra.get('preds', ()))), comps, True
+    return None
+
+
+def same_index(prog, a, b2):
+    a, b2 = strip(a), strip(b2)
+    if a is b2:
+        return True
+    if a is None or b2 is None:
+        return False
+    if a.kind == 'param' and b2.kind == 'param':
+        return a.args[0] == b2.args[0]
+    return False
+
+
 def run_redred(ctx):
     """In the insert repair, the red-uncle case paints the grandparent red.  The grandparent's own parent may be red too: unless it
     is tested and found absent or black, the repair must continue with the grandparent as the new red node (recursive call or the
